@@ -1,7 +1,7 @@
 (* Properties_C01 — private objects are unreachable unless the normal user is logged in; token objects
    need read-write sessions.  Statements only. *)
 From Coq Require Import List NArith Bool.
-From SoftHSM Require Import Gen_Entry EntryFacts Gen_Const Gen_Pure Defs Core AccessFacts StepFacts Invariants PrivacyFacts FindFacts.
+From SoftHSM Require Import Gen_Entry EntryFacts Gen_Const Gen_Pure Defs Core AccessFacts StepFacts Invariants PrivacyFacts FindFacts EntryModel.
 Import ListNotations.
 Local Open Scope N_scope.
 
@@ -163,3 +163,66 @@ Theorem C01_CopyObject_read_check : forall (e : C_CopyObject.env),
   ogb CKA_COPYABLE true <> 0.
 Proof. exact CopyObject_guards. Qed.
 Print Assumptions C01_CopyObject_read_check.
+
+Theorem C01_getattr_code_guard : forall (s : state) (h oh : N) (x : session) (rest ptr cnt : N),
+  ptr <> 0 ->
+  C_GetAttributeValue.app (getattr_env s h oh x rest ptr cnt)
+  = match get_object s oh with
+    | None => CKR_OBJECT_HANDLE_INVALID
+    | Some (_, _, ob) => if negb (have_read (sess_state s x) (o_token ob) (o_private ob) =? CKR_OK) then CKR_GENERAL_ERROR else rest
+    end.
+Proof. exact getattr_code_guard. Qed.
+Print Assumptions C01_getattr_code_guard.
+
+Theorem C01_setattr_code_guard : forall (s : state) (h oh : N) (x : session) (rest ptr cnt : N),
+  ptr <> 0 ->
+  C_SetAttributeValue.app (setattr_env s h oh x rest ptr cnt)
+  = match get_object s oh with
+    | None => CKR_OBJECT_HANDLE_INVALID
+    | Some (_, _, ob) =>
+        let rv := have_write (sess_state s x) (o_token ob) (o_private ob) in
+        if negb (rv =? CKR_OK) then rv else if negb (obj_bool ob CKA_MODIFIABLE true) then CKR_ACTION_PROHIBITED else rest
+    end.
+Proof. exact setattr_code_guard. Qed.
+Print Assumptions C01_setattr_code_guard.
+
+Theorem C01_destroy_model_is_code : forall (s : state) (h oh : N) (x : session),
+  st_init s = true -> get_session s h = Some x ->
+  rv_of (snd (step s (ODestroy h oh))) = Some (C_DestroyObject.app (destroy_env s h oh x)).
+Proof. exact destroy_model_is_code. Qed.
+Print Assumptions C01_destroy_model_is_code.
+
+Theorem C01_findinit_code_passes_model_public : forall (s : state) (h : N) (x : session) (rest : bool -> N) (ptr cnt : N),
+  (ptr <> 0 \/ cnt = 0) ->
+  C_FindObjectsInit.app (findinit_env s h x rest ptr cnt)
+  = if negb (s_op x =? SESSION_OP_NONE) then CKR_OPERATION_ACTIVE else rest (model_public (sess_state s x)).
+Proof. exact findinit_code_passes_model_public. Qed.
+Print Assumptions C01_findinit_code_passes_model_public.
+
+Theorem C01_findinit_model_uses_public : forall (s : state) (h : N) (x : session) (tm : template) (prio : list bytes),
+  st_init s = true -> get_session s h = Some x -> (s_op x =? SESSION_OP_NONE) = true ->
+  forallb (fun e => match te_val e with Some b => blen b =? te_len e | None => te_len e =? 0 end) tm = true ->
+  step s (OFindInit h tm prio)
+  = match find_loop (tctx_of s (s_tok x)) (model_public (sess_state s x)) (s_tok x) h tm (order_cands prio (candidates s (s_tok x))) s [] with
+    | None => (s, RUnmodelled)
+    | Some (s1, hs) => (upd_session s1 h (fun x => set_s_op x SESSION_OP_FIND hs), RRv CKR_OK)
+    end.
+Proof. exact findinit_model_uses_public. Qed.
+Print Assumptions C01_findinit_model_uses_public.
+
+Theorem C01_getattr_model_refusal_is_code : forall (s : state) (h oh : N) (x : session) (q : list (N * option N)) (rest : N),
+  st_init s = true -> get_session s h = Some x ->
+  (match get_object s oh with None => True
+   | Some (_, _, ob) => negb (have_read (sess_state s x) (o_token ob) (o_private ob) =? CKR_OK) = true end) ->
+  rv_of (snd (step s (OGetAttr h oh q))) = Some (C_GetAttributeValue.app (getattr_env s h oh x rest 1 (N.of_nat (length q)))).
+Proof. exact getattr_model_refusal_is_code. Qed.
+Print Assumptions C01_getattr_model_refusal_is_code.
+
+Theorem C01_setattr_model_refusal_is_code : forall (s : state) (h oh : N) (x : session) (tm : template) (rest : N),
+  st_init s = true -> get_session s h = Some x ->
+  (match get_object s oh with None => True
+   | Some (_, _, ob) => negb (have_write (sess_state s x) (o_token ob) (o_private ob) =? CKR_OK) = true
+                        \/ obj_bool ob CKA_MODIFIABLE true = false end) ->
+  rv_of (snd (step s (OSetAttr h oh tm))) = Some (C_SetAttributeValue.app (setattr_env s h oh x rest 1 (N.of_nat (length tm)))).
+Proof. exact setattr_model_refusal_is_code. Qed.
+Print Assumptions C01_setattr_model_refusal_is_code.
